@@ -61,9 +61,9 @@ def exclusive(s1, s2):
 
 def work(job):
     """kbest + explain on one program; validation of every solver answer; artefacts for the model."""
-    src, max_worlds = job
+    src, max_worlds, tmo = job
     res = dict(src=src, fails=[], lines=[], counts=[], skip=None, nontrivial=False, results=None, explain=None)
-    r = ku.run_kbest(src)
+    r = ku.run_kbest(src, timeout=tmo)
     if r["status"] != "ok":
         if r["exc"] in ("Timeout", "NegativeCycle"):
             res["skip"] = r["exc"]
@@ -131,7 +131,7 @@ def work(job):
                 " ".join(map(str, weighted)), pw_s, " ".join(answers["lower"]), " ".join(answers["upper"])),
                 (q["result"], order)))
     # explain task
-    e = ku.run_kbest(src, explain=True)
+    e = ku.run_kbest(src, explain=True, timeout=tmo)
     if e["status"] != "ok":
         if e["exc"] not in ("Timeout", "NegativeCycle"):
             res["fails"].append(("explain: %s raised at %s" % (e["exc"], e["site"]),
@@ -144,6 +144,49 @@ def work(job):
         res["explain"] = dict(results=e["results"], sums=ku.parse_explanation(e["explanation"]), shared=sorted(shared),
                               lines=e["explanation"][:12])
     return res
+
+
+def program_fails(P, sem, r):
+    """Spec-level failures of one program (signature list) given the worker result and the Sem result."""
+    out = [sg for _, sg in r["fails"]]
+    if r["skip"] or sem is None or sem["undef"] > 0:
+        return out
+    if r["results"] is not None:
+        val = semcheck.canon_results(r["results"])
+        for k, v in sem["probs"].items():
+            got = val.get(k)
+            if got is None:
+                if v != 0:
+                    out.append(dict(kind="unreported", task="kbest"))
+            elif isinstance(got, tuple):
+                if not (got[0] - 1e-9 <= float(v) <= got[1] + 1e-9):
+                    out.append(dict(kind="interval-misses-exact", task="kbest"))
+            elif not close(got, v):
+                out.append(dict(kind="single-wrong", task="kbest"))
+    ex = r["explain"]
+    if ex is not None:
+        for k, v in sem["probs"].items():
+            s = ex["sums"].get(k)
+            if (s is None and v != 0 and k in ex["results"]) or (s is not None and abs(s[0] - float(v)) > 1e-6):
+                out.append(dict(kind="explain-sum", task="explain", shared_node=k in ex["shared"]))
+    return out
+
+
+def shrink(P, sig, sem_drv, max_worlds, tmo, budget=45):
+    from props.c01 import shrink_program
+    calls = [0]
+
+    def still(c):
+        calls[0] += 1
+        if calls[0] > budget:
+            return False
+        sem = semcheck.spec_batch(sem_drv, [c])[0]
+        r = work((spine.to_src(c), max_worlds, tmo))
+        return any(s.get("kind") == sig.get("kind") and s.get("task") == sig.get("task") for s in program_fails(c, sem, r))
+    try:
+        return shrink_program(P, still)
+    except Exception:
+        return P
 
 
 def same_text(model_text, impl_text):
@@ -171,19 +214,18 @@ def run(ctx):
     if drv is None or sem_drv is None:
         return ctx.finish("proof")
     rng = ctx.sub_rng("programs")
-    nprog = ctx.budget(70, 1500)
+    nprog = ctx.budget(55, 1500)
     if ctx.replay_in:
         import json
         rp = json.load(open(ctx.replay_in))["replay"]
-        progs = [rp["program"]]
-        for p in progs:
-            p["stmts"] = [tuple(s) for s in p["stmts"]]
+        progs = [ku.load_program(rp["program"])]
     else:
         progs = [gen(rng) for _ in range(nprog)]
     sems = semcheck.spec_batch(sem_drv, progs)
-    jobs = [(spine.to_src(P), ctx.budget(1 << 11, 1 << 13)) for P in progs]
+    jobs = [(spine.to_src(P), ctx.budget(1 << 11, 1 << 13), ctx.budget(10, 60)) for P in progs]
     results = pmap(work, jobs, chunksize=1)
     lines, meta = [], []
+    nshrunk = [0]
     for P, sem, r in zip(progs, sems, results):
         src = r["src"]
         if r["skip"]:
@@ -230,7 +272,12 @@ def run(ctx):
         if len(ctx.samples) < 3:
             ctx.sample({"src": src, "kbest": str(r["results"])[:300], "exact": {k: str(v) for k, v in sem["probs"].items()}})
         for what, sig in fails[:3]:
-            ctx.fail(what + " | program: " + src.replace("\n", " "), {"program": P, "src": src}, sig)
+            small = P
+            if nshrunk[0] < 1 and ctx.known_match(sig) is None and not ctx.replay_in:
+                nshrunk[0] += 1
+                small = shrink(P, sig, sem_drv, jobs[0][1], jobs[0][2])
+            ssrc = spine.to_src(small)
+            ctx.fail(what + " | program: " + ssrc.replace("\n", " "), {"program": small, "src": ssrc}, sig)
         for op, line, exp in r["lines"]:
             lines.append(line)
             meta.append((op, src, exp))
